@@ -115,9 +115,25 @@ static int replay(const char* path, unsigned seed, const char* only) {
 }
 // ---- full size, trivial key material: bk_i = s_i * gadget (zero masks, zero noise), key-switching rows noiseless with zero masks ----
 // The accumulator stays a trivial sample, so the output phase is the same under every key: it must be +-mu according to the rounded phase.
+static int full_body(const LweParams* lp, const TLweParams* tp, const TGswParams* gp, int n, int k, int l, int bgbit, int t, int bb, unsigned seed, int cases);
 static int full(int n, int k, int l, int bgbit, int t, int bb, unsigned seed, int cases) {
-    const int N = 1024;
-    LweParams* lp = new_LweParams(n, 0., 0.1); TLweParams* tp = new_TLweParams(N, k, 0., 0.1); TGswParams* gp = new_TGswParams(l, bgbit, tp); const LweParams* ep = &tp->extracted_lweparams;
+    LweParams* lp = new_LweParams(n, 0., 0.1); TLweParams* tp = new_TLweParams(1024, k, 0., 0.1); TGswParams* gp = new_TGswParams(l, bgbit, tp);
+    return full_body(lp, tp, gp, n, k, l, bgbit, t, bb, seed, cases);
+}
+// histories: several configurations one after the other in one process, the parameter objects re-initialised in the SAME storage through the
+// alloc / init / destroy / free API (so anything the library keeps per parameter address, per thread or per process meets a different shape)
+static int fullseq(unsigned seed, int cases) {
+    int cfg[7][6] = {{4, 2, 2, 8, 4, 3}, {4, 1, 2, 8, 4, 3}, {3, 2, 3, 7, 8, 2}, {5, 1, 3, 7, 8, 2}, {2, 1, 2, 10, 5, 3}, {2, 2, 2, 10, 5, 3}, {4, 1, 2, 8, 4, 3}};
+    LweParams* lp = alloc_LweParams(); TLweParams* tp = alloc_TLweParams(); TGswParams* gp = alloc_TGswParams(); int rc = 0;
+    for (int q = 0; q < 7; q++) { const int* c = cfg[q];
+        init_LweParams(lp, c[0], 0., 0.1); init_TLweParams(tp, 1024, c[1], 0., 0.1); init_TGswParams(gp, c[2], c[3], tp);
+        rc |= full_body(lp, tp, gp, c[0], c[1], c[2], c[3], c[4], c[5], seed + q, cases);
+        destroy_TGswParams(gp); destroy_TLweParams(tp); destroy_LweParams(lp); }
+    free_TGswParams(gp); free_TLweParams(tp); free_LweParams(lp);
+    return rc;
+}
+static int full_body(const LweParams* lp, const TLweParams* tp, const TGswParams* gp, int n, int k, int l, int bgbit, int t, int bb, unsigned seed, int cases) {
+    const int N = 1024; const LweParams* ep = &tp->extracted_lweparams;
     VhRng rng(seed);
     std::vector<int> key(n); for (int i = 0; i < n; i++) key[i] = rng.below(2); if (n > 1) { key[0] = 1; key[n - 1] = 1; }
     LweBootstrappingKey* bk = new_LweBootstrappingKey(t, bb, lp, gp);
@@ -145,6 +161,7 @@ static int full(int n, int k, int l, int bgbit, int t, int bb, unsigned seed, in
         std::vector<uint32_t> asel; for (int i = 0; i < n; i++) if (key[i] && a[i]) asel.push_back(a[i]);
         VH_B; vh_s("k", "full"); VH_C; vh_i("f", f); VH_C; vh_i("n", n); VH_C; vh_i("kk", k); VH_C; vh_i("l", l); VH_C; vh_i("bg", bgbit); VH_C; vh_w("mu", (uint32_t)mu); VH_C; vh_w("b", b); VH_C; wl("as", asel); VH_C; vh_w("ph", ph); VH_C; vh_i("masknz", masknz); VH_E;
     }
+    delete_LweSample(x); delete_LweSample(u); delete_LweSample(r); delete_LweBootstrappingKeyFFT(bkf); delete_LweBootstrappingKey(bk); delete_IntPolynomial(one);
     fflush(stdout);
     return 0;
 }
@@ -177,6 +194,7 @@ static int extfull(int k, int l, int bgbit, unsigned seed, int cases) {
 int main(int argc, char** argv) {
     vh_init();
     if (argc >= 2 && !strcmp(argv[1], "extfull")) return extfull((int)vh_arg(argc, argv, "--k", 1), (int)vh_arg(argc, argv, "--l", 2), (int)vh_arg(argc, argv, "--bg", 10), (unsigned)vh_arg(argc, argv, "--seed", 1), (int)vh_arg(argc, argv, "--cases", 24));
+    if (argc >= 2 && !strcmp(argv[1], "fullseq")) return fullseq((unsigned)vh_arg(argc, argv, "--seed", 1), (int)vh_arg(argc, argv, "--cases", 512));
     if (argc >= 2 && !strcmp(argv[1], "full")) return full((int)vh_arg(argc, argv, "--n", 8), (int)vh_arg(argc, argv, "--k", 1), (int)vh_arg(argc, argv, "--l", 3), (int)vh_arg(argc, argv, "--bg", 7), (int)vh_arg(argc, argv, "--t", 8), (int)vh_arg(argc, argv, "--bb", 2), (unsigned)vh_arg(argc, argv, "--seed", 1), (int)vh_arg(argc, argv, "--cases", 6144));
     if (argc >= 3 && !strcmp(argv[1], "replay")) {       // several instances one after the other in one process (state kept between calls of different shapes shows here)
         int rc = 0, T = (int)vh_arg(argc, argv, "--threads", 1); unsigned seed = (unsigned)vh_arg(argc, argv, "--seed", 1); const char* only = vh_sarg(argc, argv, "--only", "");
